@@ -232,14 +232,14 @@ class LexModel:
                         r.value_stores.append(st)
             if isinstance(st, ast.AugAssign):
                 ch = attr_chain(st.target)
-                if ch is not None and ch[-1] == "lineno":
+                if ch is not None and len(ch) >= 2 and ch[-1] == "lineno":
                     r.lineno_updates.append(st)
                 if ch == (tname, "value"):
                     r.value_stores.append(st)
             if isinstance(st, ast.Assign):
                 for t in st.targets:
                     ch = attr_chain(t)
-                    if ch is not None and ch[-1] == "lineno":
+                    if ch is not None and len(ch) >= 2 and ch[-1] == "lineno":
                         r.lineno_updates.append(st)  # type: ignore[arg-type]
 
     def _derive_retypes(self) -> None:
